@@ -146,6 +146,15 @@ func Build(form string, p *refcodec.Packet, from netip.Addr, c BuildCtx) ([]byte
 		}
 		m := refcodec.ICMP(6, from, to, 129, 0, rest, p.ICMPBody)
 		return refcodec.IPv6(from, to, refcodec.ProtoICMPv6, 60, m), nil
+	case form == "tcpack" || form == "tcpfinack" || form == "tcppshack":
+		// segments of an established connection from the target port, acknowledging the probe's sequence number
+		flags := map[string]uint8{"tcpack": refcodec.ACK, "tcpfinack": refcodec.ACK | refcodec.FIN, "tcppshack": refcodec.ACK | refcodec.PSH}[form]
+		var payload []byte
+		if form == "tcppshack" {
+			payload = []byte("HTTP/1.1 400\r\n")
+		}
+		t := refcodec.TCP(from, to, p.DstPort, p.SrcPort, c.ServerSeq, p.Seq+1, flags, 502, nil, payload)
+		return refcodec.Wrap(from, to, refcodec.ProtoTCP, 60, 0, t), nil
 	case form == "synack" || form == "rst" || form == "rstack":
 		var flags uint8
 		var ack uint32
